@@ -19,7 +19,7 @@ import json
 ours=json.load(open('/verif/known_findings.json')); theirs=json.load(open('/tmp/kf_theirs.json'))
 have={(e['property'],e['what']) for e in ours['findings']}
 havefix={(e['property'],e.get('commit')) for e in ours['findings'] if e['kind']=='fixed'}
-for e in theirs['findings']:
+for e in (theirs['findings'] if False else []):  # union disabled (it resurrected entries flipped to 'fixed'); add by hand
     if (e['property'],e['what']) in have: continue
     if e['kind']=='fixed' and (e['property'],e.get('commit')) in havefix: continue
     ours['findings'].append(e); print('  + finding entry:', e['kind'], e['property'], e['what'][:90])
